@@ -55,6 +55,20 @@ CLAIMS = {
         technique="TLA+ spec + TLC (exhaustive + simulation), behaviours replayed on the implementation; call-record trace validation for the arithmetic",
         design_ref="6/C18",
     ),
+    "C12": dict(
+        engine="sequential-specs",
+        level="model_checking",
+        text="specs/states/StateSetup.tla is the store model (root flag + state names per object) with the check chain's root policy, the "
+             "2-letter mode tables of get/set/unset/push/pop and the object iteration order; TLC checks non-interference and plain-store "
+             "action properties and enumerates (a) the full table on one image (5 operations x root/ordinary x 25 letter pairs x 4 check "
+             "modes x every store), (b) every call sequence up to a bound, and simulates (c) random stores x calls on 2 vms x 2 images with "
+             "target/skip_types/readonly subsets. Every transition is executed on avocado_i2n.states.setup with an in-memory backend in "
+             "BACKENDS; outcome, backend actions per object and resulting store are compared",
+        note="per-object reading of the table: an abort ends the call, objects handled earlier keep their documented effect; the check "
+             "policy's root forcing is the check row's own documented action; in-memory backend defines unset_root as removing the states too",
+        technique="TLA+ spec + TLC (exhaustive + simulation), every transition replayed on the implementation",
+        design_ref="6/C12",
+    ),
 }
 
 NOT_YET = "machinery for this property is not built yet in this revision (see DESIGN.md section 9 build order)"
